@@ -109,6 +109,8 @@ type recvState struct {
 	haveHiEnter bool
 	hiEnter  int64
 	tainted  bool // sequence bookkeeping became ambiguous (overlapping presentations)
+	hist     []string // recent presentations (diagnostics)
+	partial  bool // some frame was partly withheld and partly forwarded (not a whole-frame drop pattern)
 	gappy    bool // presentations to this receiver were not a gap-free in-order sequence
 	withheld map[int64]bool
 	nWith    []int64 // sorted withheld exts
@@ -516,8 +518,24 @@ func (w *mediaWorld) judge(rs *recvState, pr *presentation, after rtpconn.VerifL
 		}
 	}
 
+	{
+		tag := "withheld/unmapped"
+		if forwarded {
+			tag = fmt.Sprintf("out=%d", out)
+		}
+		h := fmt.Sprintf("[seq=%d f=%d sid=%d tid=%d %s newest=%v nack=%v seq=%v ovl=%v]", src.Seq, src.Frame, src.Sid, src.Tid, tag, newest, pr.fromNACK, pr.fromSeq, pr.overlap)
+		rs.hist = append(rs.hist, h)
+		if len(rs.hist) > 24 {
+			rs.hist = rs.hist[1:]
+		}
+	}
+
 	// ---------------- C04: layer state machine
 	if w.check["C04"] && !pr.overlap {
+		if rs.haveLast && (pr.before.MaxSid < rs.lastLayer.MaxSid || pr.before.MaxTid < rs.lastLayer.MaxTid) && len(rs.inflight) == 0 {
+			c.Violation("C04.layer-changed-outside-forwarding", "receiver %d: highest layers recorded in the layer word went from sid=%d tid=%d back to sid=%d tid=%d between two packets (stale store of the layer word?)", rs.idx, rs.lastLayer.MaxSid, rs.lastLayer.MaxTid, pr.before.MaxSid, pr.before.MaxTid)
+			return
+		}
 		if rs.haveLast && (pr.before.Sid != rs.lastLayer.Sid || pr.before.Tid != rs.lastLayer.Tid) && len(rs.inflight) == 0 {
 			c.Violation("C04.layer-changed-outside-forwarding", "receiver %d: layer went from sid=%d tid=%d to sid=%d tid=%d between two packets (stale store of the layer word?)", rs.idx, rs.lastLayer.Sid, rs.lastLayer.Tid, pr.before.Sid, pr.before.Tid)
 			return
@@ -525,6 +543,17 @@ func (w *mediaWorld) judge(rs *recvState, pr *presentation, after rtpconn.VerifL
 		// highest layers seen so far, including this packet (updated at Enter)
 		newTopTid := pr.newTopTid
 		newTopSid := pr.newTopSid
+		if !rs.haveLast {
+			// The previous presentations overlapped (their effect on the
+			// word is not attributable): accept the word's own view of
+			// what is new, as long as it is the highest layer seen.
+			if int(src.Tid) == rs.maxTidSeen && src.Tid > pr.before.MaxTid {
+				newTopTid = true
+			}
+			if int(src.Sid) == rs.maxSidSeen && src.Sid > pr.before.MaxSid {
+				newTopSid = true
+			}
+		}
 		if int(after.Sid) > maxInt(rs.maxSidSeen, 0) || int(after.Tid) > maxInt(rs.maxTidSeen, 0) {
 			c.Violation("C04.layer-above-seen", "receiver %d: selected sid=%d tid=%d exceeds the highest layers seen (sid %d, tid %d)", rs.idx, after.Sid, after.Tid, rs.maxSidSeen, rs.maxTidSeen)
 			return
@@ -595,8 +624,10 @@ func (w *mediaWorld) judge(rs *recvState, pr *presentation, after rtpconn.VerifL
 		}
 		want := uint16(ext - int64(w.withheldBelow(rs, ext)))
 		if w.check["C01"] && !rs.tainted {
-			if out != want {
-				c.Violation("C01.wrong-seqno", "receiver %d: source seqno %d forwarded as %d, expected %d (= source - %d withheld before it)", rs.idx, src.Seq, out, want, w.withheldBelow(rs, ext))
+			// an overlapping presentation may already have been counted by
+			// the map but not yet by this model (or the reverse)
+			if out != want && !pr.overlap {
+				c.Violation("C01.wrong-seqno", "receiver %d: source seqno %d forwarded as %d, expected %d (= source - %d withheld before it); recent presentations: %v", rs.idx, src.Seq, out, want, w.withheldBelow(rs, ext), rs.hist)
 				return
 			}
 			if f, ok := rs.firstOut[ext]; ok && f != out {
@@ -642,7 +673,7 @@ func (w *mediaWorld) judge(rs *recvState, pr *presentation, after rtpconn.VerifL
 		// A packet newer than everything presented so far can always be
 		// mapped, so not forwarding it was deliberate: withheld.  An older
 		// one that is not forwarded was unmappable (no effect).
-		if pr.overlap && !pr.fromNACK && newest != pr.newestAtEnter {
+		if pr.overlap && !pr.fromNACK && !(newest && pr.newestAtEnter) {
 			rs.tainted = true // order of the two map operations is unknown
 			c.Count("presentations.ambiguous", 1)
 		}
@@ -760,8 +791,12 @@ func (w *mediaWorld) judgeBytes(rs *recvState, pr *presentation, after rtpconn.V
 		}
 		rs.framePID[src.Frame] = pidOut
 		// frames wholly withheld before this one (in-order delivery profiles only)
+		if rs.frameWith[src.Frame] && !rs.partial {
+			rs.partial = true
+			c.Count("probe.partial_frame_drop", 1)
+		}
 		// the consecutive-id clause is stated for in-order histories with whole-frame drops
-		if !rs.gappy && !pr.fromNACK && !pr.fromSeq && !rs.tainted {
+		if !rs.gappy && !rs.partial && !pr.fromNACK && !pr.fromSeq && !rs.tainted {
 			n := 0
 			for fr := range rs.frameWith {
 				if fr < src.Frame && !rs.frameFwd[fr] {
@@ -770,7 +805,7 @@ func (w *mediaWorld) judgeBytes(rs *recvState, pr *presentation, after rtpconn.V
 			}
 			want := (src.PID - uint16(n)) & pidMask(bits)
 			if pidOut != want {
-				c.Violation("C02.pid-not-consecutive", "receiver %d: frame %d (source picture id %d, %d whole frames withheld before it) forwarded with picture id %d, expected %d", rs.idx, src.Frame, src.PID, n, pidOut, want)
+				c.Violation("C02.pid-not-consecutive", "receiver %d: frame %d (source picture id %d, %d whole frames withheld before it) forwarded with picture id %d, expected %d; recent presentations: %v", rs.idx, src.Frame, src.PID, n, pidOut, want, rs.hist)
 				return false
 			}
 			if n > 0 {
